@@ -14,17 +14,27 @@ from ..rules import has_guard
 from .common_own import rule_invoke_guard
 
 E = "reactivex/scheduler/eventloopscheduler.py"
-FIELDS = ["_ready_list", "_queue", "_thread", "_is_disposed"]
+
+
+def eventloop_roles(repo: Repo):
+    """(thread, condition, disposed flag, timed queue, ready list, thread factory, exit-if-empty) attribute names of
+    EventLoopScheduler, by how __init__ fills them."""
+    from .attr_roles import roles
+    r = roles(repo, E, "EventLoopScheduler")
+    return (r.by_const(None, only=True), r.by_call("Condition", "threading.Condition"), r.by_const(False, only=True), r.by_call("PriorityQueue"),
+            r.by_call("deque", "collections.deque"), r.by_param_index(0), r.by_param_index(1))
 
 
 def check(repo: Repo, rep: Report) -> None:
+    E_TH, E_CV, E_DISP, E_Q, E_RL, E_TF, E_EX = eventloop_roles(repo)
+    FIELDS = [E_RL, E_Q, E_TH, E_DISP]
     rep.explanation = (
-        "Lock discipline and structure of EventLoopScheduler: _ready_list/_queue/_thread/_is_disposed are accessed only "
-        "under `_condition` (the lock-free `_is_disposed` pre-checks are monotone early raises; `_ensure_thread` is only "
+        f"Lock discipline and structure of EventLoopScheduler: {E_RL}/{E_Q}/{E_TH}/{E_DISP} are accessed only "
+        f"under `{E_CV}` (the lock-free `{E_DISP}` pre-checks are monotone early raises; `_ensure_thread` is only "
         "called with the condition held); actions are invoked only in run(), outside the lock, under `not is_cancelled()`; "
         "run is the only target handed to the thread factory and a thread is created only when none exists (single "
         "consumer); timed items are dequeued only when not (due > now); the disposed test is the first statement of each "
-        "loop iteration under the condition; exit_if_empty clears `_thread` in the region that decides emptiness; "
+        f"loop iteration under the condition; exit_if_empty clears `{E_TH}` in the region that decides emptiness; "
         "ready lists are FIFO; dispose is a locked test-and-set that wakes the loop; the non-reentrant condition is "
         "never re-acquired.")
     rep.assumptions += ["threading.Condition/Lock semantics", "deque.append/popleft are FIFO"]
@@ -40,7 +50,7 @@ def check(repo: Repo, rep: Report) -> None:
     rep.rule("E10-clamp-relative", "negative relative due times are clamped to zero", floor=1)
     rep.rule("E9-no-reacquire", "the non-reentrant condition is never re-acquired while held", floor=1)
     cls = repo.fn(E, "EventLoopScheduler")
-    cl = ClassLocks(repo, cls, ["self._condition"], FIELDS)
+    cl = ClassLocks(repo, cls, [f"self.{E_CV}"], FIELDS)
     discipline(rep, cl, "L1-write-locked", "L2-read-locked",
                what=" (scheduling threads and the loop thread race on the queues / thread slot)")
     run = repo.fn(E, "EventLoopScheduler.run")
@@ -54,24 +64,24 @@ def check(repo: Repo, rep: Report) -> None:
     rule_invoke_guard(repo, rep, "S1-invoke-guard")
     # E3
     et = repo.fn(E, "EventLoopScheduler._ensure_thread")
-    mk = [s for s in sites(et) if isinstance(s.node, ast.Call) and dotted(s.node.func) == "self._thread_factory"]
+    mk = [s for s in sites(et) if isinstance(s.node, ast.Call) and dotted(s.node.func) == f"self.{E_TF}"]
     rep.require(mk, "thread creation in _ensure_thread")
     for s in mk:
-        ok = has_guard(s.ctx, "self._thread", False) and s.node.args and u(s.node.args[0]) == "self.run"
+        ok = has_guard(s.ctx, f"self.{E_TH}", False) and s.node.args and u(s.node.args[0]) == "self.run"
         rep.ob("E3-single-consumer", et, short(s.node), ok,
                "a loop thread is created although one exists, or its target is not run(): two threads would run actions")
-    st = [s for s in sites(et) if isinstance(s.node, ast.Assign) and any(u(t) == "self._thread" for t in s.node.targets)]
-    rep.ob("E3-single-consumer", et, "self._thread = thread", bool(st) and all(has_guard(s.ctx, "self._thread", False) for s in st),
+    st = [s for s in sites(et) if isinstance(s.node, ast.Assign) and any(u(t) == f"self.{E_TH}" for t in s.node.targets)]
+    rep.ob("E3-single-consumer", et, f"self.{E_TH} = thread", bool(st) and all(has_guard(s.ctx, f"self.{E_TH}", False) for s in st),
            "the created thread is not recorded (every schedule would start another thread)")
     rep.ob("E3-single-consumer", et, "_ensure_thread only called with the condition held", cl.helper_always_called_locked(et),
            "_ensure_thread is called without the condition: two schedulers-threads could both create a loop thread")
     others = [s for m in cls.children if m.is_func and m is not et for s in sites(m)
-              if isinstance(s.node, ast.Call) and dotted(s.node.func) == "self._thread_factory"]
+              if isinstance(s.node, ast.Call) and dotted(s.node.func) == f"self.{E_TF}"]
     rep.ob("E3-single-consumer", cls, "no other thread creation", not others, "a thread is created outside _ensure_thread")
     # E4
-    deq = [s for s in sites(run) if isinstance(s.node, ast.Call) and dotted(s.node.func) == "self._queue.dequeue"]
+    deq = [s for s in sites(run) if isinstance(s.node, ast.Call) and dotted(s.node.func) == f"self.{E_Q}.dequeue"]
     rep.require(deq, "dequeue in run")
-    due_defs = [x for x in sites(run) if isinstance(x.node, ast.Assign) and u(x.node.value) == "self._queue.peek().duetime"]
+    due_defs = [x for x in sites(run) if isinstance(x.node, ast.Assign) and u(x.node.value) == f"self.{E_Q}.peek().duetime"]
     time_defs = [x for x in sites(run) if isinstance(x.node, ast.Assign) and u(x.node.value) == "self.now"]
     due_names = {u(x.node.targets[0]) for x in due_defs}
     for s in deq:
@@ -90,28 +100,28 @@ def check(repo: Repo, rep: Report) -> None:
     rep.require(len(loops) == 1, "outer loop in run")
     body = loops[0].node.body
     first = body[0] if body else None
-    ok = isinstance(first, ast.With) and u(first.items[0].context_expr) == "self._condition" and first.body \
-        and isinstance(first.body[0], ast.If) and u(first.body[0].test) == "self._is_disposed" \
+    ok = isinstance(first, ast.With) and u(first.items[0].context_expr) == f"self.{E_CV}" and first.body \
+        and isinstance(first.body[0], ast.If) and u(first.body[0].test) == f"self.{E_DISP}" \
         and any(isinstance(x, ast.Return) for x in first.body[0].body)
-    rep.ob("E5-disposed-first", run, "while True: with condition: if _is_disposed: return", bool(ok),
+    rep.ob("E5-disposed-first", run, f"while True: with condition: if {E_DISP}: return", bool(ok),
            "the loop does not test the disposed flag first thing in every iteration under the condition: items scheduled "
            "or pending after dispose() could still run")
     # E6
-    clears = [s for s in sites(run) if isinstance(s.node, ast.Assign) and any(u(t) == "self._thread" for t in s.node.targets)
+    clears = [s for s in sites(run) if isinstance(s.node, ast.Assign) and any(u(t) == f"self.{E_TH}" for t in s.node.targets)
               and isinstance(s.node.value, ast.Constant) and s.node.value.value is None]
-    rep.require(clears, "self._thread = None in run")
+    rep.require(clears, f"self.{E_TH} = None in run")
     for s in clears:
-        ok = cl.held(s) and has_guard(s.ctx, "self._ready_list", False) and has_guard(s.ctx, "self._queue", False) \
-            and has_guard(s.ctx, "self._exit_if_empty", True)
+        ok = cl.held(s) and has_guard(s.ctx, f"self.{E_RL}", False) and has_guard(s.ctx, f"self.{E_Q}", False) \
+            and has_guard(s.ctx, f"self.{E_EX}", True)
         nxt = [x for x in sites(run) if isinstance(x.node, ast.Return) and x.ctx.branch == s.ctx.branch and x.index > s.index]
         rep.ob("E6-exit-if-empty", run, short(s.stmt), ok and bool(nxt),
                "the thread slot is cleared without the emptiness of both lists being decided in the same locked region (a "
                "concurrently scheduled item would be stranded without a thread), or the loop does not exit after clearing it")
     # E7
     sa = repo.fn(E, "EventLoopScheduler.schedule_absolute")
-    app = [s for s in sites(sa) if isinstance(s.node, ast.Call) and dotted(s.node.func) == "self._ready_list.append"]
-    enq = [s for s in sites(sa) if isinstance(s.node, ast.Call) and dotted(s.node.func) == "self._queue.enqueue"]
-    nt = [s for s in sites(sa) if isinstance(s.node, ast.Call) and dotted(s.node.func) == "self._condition.notify"]
+    app = [s for s in sites(sa) if isinstance(s.node, ast.Call) and dotted(s.node.func) == f"self.{E_RL}.append"]
+    enq = [s for s in sites(sa) if isinstance(s.node, ast.Call) and dotted(s.node.func) == f"self.{E_Q}.enqueue"]
+    nt = [s for s in sites(sa) if isinstance(s.node, ast.Call) and dotted(s.node.func) == f"self.{E_CV}.notify"]
     en = [s for s in sites(sa) if isinstance(s.node, ast.Call) and dotted(s.node.func) == "self._ensure_thread"]
     ok = all([app, enq, nt, en]) and all(cl.held(s) for s in app + enq + nt + en) and not nt[0].ctx.branch and not en[0].ctx.branch
     rep.ob("E7-fifo", sa, "append|enqueue, notify, ensure_thread in one region", ok,
@@ -129,19 +139,19 @@ def check(repo: Repo, rep: Report) -> None:
                    if isinstance(x.node, (ast.Assign, ast.AnnAssign)) and isinstance(x.node.value, ast.Call) and call_name(x.node.value) == "deque"}
     for s in sites(run):
         n = s.node
-        if isinstance(n, ast.Call) and isinstance(n.func, ast.Attribute) and dotted(n.func.value) in (ready_names | {"self._ready_list"}):
+        if isinstance(n, ast.Call) and isinstance(n.func, ast.Attribute) and dotted(n.func.value) in (ready_names | {f"self.{E_RL}"}):
             rep.ob("E7-fifo", run, short(n), n.func.attr in ("append", "popleft"),
                    f"{short(n)} breaks submission order of immediately-due actions")
     # E8
     d = repo.fn(E, "EventLoopScheduler.dispose")
-    sets = [s for s in sites(d) if isinstance(s.node, ast.Assign) and any(u(t) == "self._is_disposed" for t in s.node.targets)]
+    sets = [s for s in sites(d) if isinstance(s.node, ast.Assign) and any(u(t) == f"self.{E_DISP}" for t in s.node.targets)]
     ok = bool(sets) and all(cl.held(s) and isinstance(s.node.value, ast.Constant) and s.node.value.value is True for s in sets)
-    ntf = [s for s in sites(d) if isinstance(s.node, ast.Call) and dotted(s.node.func) in ("self._condition.notify", "self._condition.notify_all")]
+    ntf = [s for s in sites(d) if isinstance(s.node, ast.Call) and dotted(s.node.func) in (f"self.{E_CV}.notify", f"self.{E_CV}.notify_all")]
     rep.ob("E8-dispose", d, "locked set + notify", ok and bool(ntf) and all(cl.held(s) for s in ntf),
            "dispose does not set the flag under the condition and wake the loop")
     for mname in ("schedule_absolute", "schedule_periodic"):
         m = repo.fn(E, f"EventLoopScheduler.{mname}")
-        ok = any(isinstance(s.node, ast.Raise) and "DisposedException" in u(s.node.exc) and has_guard(s.ctx, "self._is_disposed", True)
+        ok = any(isinstance(s.node, ast.Raise) and "DisposedException" in u(s.node.exc) and has_guard(s.ctx, f"self.{E_DISP}", True)
                  for s in sites(m))
         first_eff = [s for s in sites(m) if isinstance(s.node, ast.Call) and call_name(s.node) in ("ScheduledItem", "schedule_periodic", "append", "enqueue")]
         raises = [s for s in sites(m) if isinstance(s.node, ast.Raise)]
@@ -157,8 +167,8 @@ def check(repo: Repo, rep: Report) -> None:
     rep.ob("E10-clamp-relative", rel, "duetime = max(DELTA_ZERO, to_timedelta(duetime)); schedule_absolute(now + duetime)", ok,
            "a negative relative due time is not clamped to zero: the item overtakes actions submitted earlier (submission order lost)")
     # E9
-    kind = lock_kind(repo, cls, "_condition")
-    bad = reacquire_sites(repo, cls, {"self._condition"}) if kind in ("Lock", "Condition(Lock)") else []
+    kind = lock_kind(repo, cls, f"{E_CV}")
+    bad = reacquire_sites(repo, cls, {f"self.{E_CV}"}) if kind in ("Lock", "Condition(Lock)") else []
     for m, s, w in bad:
         rep.ob("E9-no-reacquire", m, f"{m.name}: {short(s.node, 40)}", False,
                f"`{short(s.node)}` takes the non-reentrant condition again while it is held ({w}): deadlock")
